@@ -21,13 +21,8 @@ pub fn get() -> FunctionDefinitions {
                                 let map = if size > map.len() {
                                     map
                                 } else {
-                                    let mut new_map = IndexMap::with_capacity(size);
-                                    for (k, v) in map {
-                                        new_map.insert(k, v);
-                                        if new_map.len() == size {
-                                            break;
-                                        }
-                                    }
+                                    let new_map: IndexMap<_, _> =
+                                        map.into_iter().take(size).collect();
                                     new_map
                                 };
                                 Some(map.into())
@@ -36,23 +31,13 @@ pub fn get() -> FunctionDefinitions {
                                 let vec = if size > vec.len() {
                                     vec
                                 } else {
-                                    let mut new_vec = Vec::with_capacity(size);
-                                    for i in vec {
-                                        new_vec.push(i);
-                                        if new_vec.len() == size {
-                                            break;
-                                        }
-                                    }
+                                    let new_vec: Vec<_> = vec.into_iter().take(size).collect();
                                     new_vec
                                 };
                                 Some(vec.into())
                             }
                             Some(JsonValue::String(str)) => {
-                                let str = if size > str.len() {
-                                    str
-                                } else {
-                                    str[..size].into()
-                                };
+                                let str: String = str.chars().take(size).collect();
                                 Some(str.into())
                             }
                             _ => None,
